@@ -537,10 +537,13 @@ def shrink(c, still_bad):
     cur = c
     if "parts" in cur:
         body = list(cur["parts"]["body"])
+        sem0 = engine.semantic_case(cur["script"].replace("DS_r <-", "DS_r :="), cur["structs"])
         i = len(body) - 1
         while i >= 0:
             cand = rebuild(cur, body=body[:i] + body[i + 1:])
-            if still_bad(cand):
+            # a clause may only go when the script keeps its semantic status (dropping a calc must not orphan a later `keep Z`)
+            sem = engine.semantic_case(cand["script"].replace("DS_r <-", "DS_r :="), cand["structs"])
+            if sem["ok"] == sem0["ok"] and sem.get("err") == sem0.get("err") and still_bad(cand):
                 cur, body = cand, body[:i] + body[i + 1:]
             i -= 1
     return exprk.shrink(cur, still_bad)
